@@ -98,6 +98,11 @@ func build(c *vf.Ctx, label string, inres, infr, inmap bool, spell int) (*setup,
 		st.ResolveConfig[key] = rAddr.String()
 	}
 	if infr {
+		if spell%2 == 0 {
+			// the friend has an earlier entry under another name (a nickname and a host name for one router): every
+			// configured name is a friend name
+			st.FriendConfigs = append(st.FriendConfigs, config.FriendConfig{Name: "nickname-of-the-same-router", IP: fAddr.String()})
+		}
 		st.FriendConfigs = append(st.FriendConfigs, config.FriendConfig{Name: label, IP: fAddr.String()})
 	}
 	var n *world.Node
